@@ -30,6 +30,9 @@ def cases(draw):
     prog = draw(S.programs(p))
     if b == "kotlin":
         kotlin_error_attrs(prog)
+    if b == "dart" and draw(st.integers(0, 2)) == 0:
+        prog["_steer"] = {"no_fallible_indexer": False, "no_self_ctor": False}
+        S.add_special_methods(draw, prog)       # comparators (cmp::Ordering crosses as i8), accessors, constructors, indexers, iterators
     if b == "kotlin" and draw(st.integers(0, 2)) == 0:
         S.add_trait(draw, prog)       # (a method disabled for kotlin loses its vtable slot: known finding, probed in run_probes)
     # a third of the programs rename some types for this backend and carry abi_renames: the native mirrors and every declaration
